@@ -40,8 +40,8 @@ type c13W struct {
 	// the output is not specified (the code forwards an empty record); the other
 	// items must still come out once each, in input order.
 	Bad []int `json:"bad,omitempty"`
-	// batcher: the consumer pauses this long (simulated) after every batch it
-	// takes, so that the batcher's output buffer fills while timeouts fire
+	// batcher, mux: the consumer pauses this long (simulated) after every batch
+	// or item it takes, so that the output buffer fills (while timeouts fire)
 	ConsDelayUs int `json:"cons_delay_us,omitempty"`
 }
 
@@ -103,6 +103,10 @@ func genC13(r *Rng, tier string) *c13W {
 			w.PipeBuf = append(w.PipeBuf, []int{0, 0, 1, 5}[r.Intn(4)])
 		}
 		w.Run.SlowSite, w.Run.SlowPct = "h:pipe", []int{0, 10, 40}[r.Intn(3)]
+		if r.Chance(30) {
+			// a reader that falls behind by more than the mux's output buffer
+			w.ConsDelayUs = []int{50, 2000, 100000}[r.Intn(3)]
+		}
 	case "batcher":
 		w.BatchSize = []int{1, 2, 3, 10, 100}[r.Intn(5)]
 		w.TimeoutUs = []int{4, 100, 10000, 5000000}[r.Intn(4)]
@@ -403,6 +407,9 @@ func execC13once(w *c13W, x *Exec) *Outcome {
 							break
 						}
 						got = append(got, strconv.Itoa(v.(int)))
+						if w.ConsDelayUs > 0 {
+							time.Sleep(time.Duration(w.ConsDelayUs) * time.Microsecond)
+						}
 					}
 					closed, inputDoneAtClose = true, inputDone
 				})
